@@ -277,6 +277,9 @@ def validate_traces(module, cfg_text, traces, chunk=20000, **kw):
                 'account for %d (a trace stopped without a named clause)\n%s'
                 % (module, r.distinct, expected, r.tail(30)))
         infos, ids = {}, {}
+        # SOFT rejections: a clause failed, was reported, and the trace went on
+        r.soft = [pr[1:] for pr in r.prints
+                  if isinstance(pr, list) and len(pr) > 3 and pr[0] == 'SOFT']
         for pr in r.prints:
             if isinstance(pr, list) and len(pr) > 1 and pr[0] == 'INFO':
                 infos[pr[1]] = infos.get(pr[1], 0) + 1
@@ -288,12 +291,14 @@ def validate_traces(module, cfg_text, traces, chunk=20000, **kw):
 
     stats['info'] = {}
     stats['info_ids'] = {}
+    stats['soft'] = []
     with ThreadPoolExecutor(jobs) as ex:
         for rej, r in ex.map(one, list(chunks(traces, chunk))):
             for k, v in r.infos.items():
                 stats['info'][k] = stats['info'].get(k, 0) + v
             for k, v in r.info_ids.items():
                 stats['info_ids'].setdefault(k, set()).update(v)
+            stats['soft'] += r.soft
             for k, v in rej.items():
                 rejects[k] = min(v, key=lambda x: x[1])
             stats['distinct'] += r.distinct
